@@ -32,10 +32,14 @@ func writeStreamEstablishHeader(w io.Writer, msg *StreamEstablish) (int, error) 
 func readAtLeast(r io.Reader, n, min int, buf []byte) (int, error) {
 	for n < min {
 		nr, err := r.Read(buf[n:])
+		// an io.Reader may return n > 0 together with an error (e.g. io.EOF)
+		n += nr
 		if err != nil {
+			if n >= min {
+				break
+			}
 			return n, err
 		}
-		n += nr
 	}
 	return n, nil
 }
